@@ -769,6 +769,7 @@ def renumber(pairs):
 
 class C09(L1Prop):
     id = "C09"
+    overlap = True
     rule = ("multi-client histories (2-4 clients, >=30% of id arguments foreign: other clients' version ids, snapshot "
             "versions, client ids); for every client the projection of the history onto that client is re-run alone on "
             "a fresh real backend and compared response by response (two-run non-interference); non-trivial = the "
@@ -837,7 +838,7 @@ class C09(L1Prop):
         return []
     def derive(self, case, trace, backend):
         """one solo case per client: its own requests, foreign ids replaced by arbitrary fixed ids"""
-        if case.meta.get("http"):
+        if case.meta.get("http") or case.meta.get("overlap") or case.mode != "lib":
             return []
         out = []
         clients = sorted({Op(o).c for o, _, _ in trace if Op(o).kind in ("av", "gcv", "as", "gs", "ensure", "backdate", "setcounter")})
